@@ -291,15 +291,32 @@ func c17exits(c *an.Ctx, f *an.Fn) {
 func c17argExits(c *an.Ctx, f *an.Fn) {
 	info := f.Info()
 	n := 0
-	an.InspectOwn(f, func(nd ast.Node) bool {
-		ret, ok := nd.(*ast.ReturnStmt)
-		if !ok || len(ret.Results) != 1 {
+	// the answers of IsSet: its own return statements, and those of a helper whose result it returns
+	// (a predicate helper it merely consults in a condition answers nothing)
+	var rets []*ast.ReturnStmt
+	var collect func(g *an.Fn, depth int)
+	collect = func(g *an.Fn, depth int) {
+		an.InspectBody(g, func(nd ast.Node) bool {
+			ret, ok := nd.(*ast.ReturnStmt)
+			if !ok || len(ret.Results) != 1 {
+				return true
+			}
+			if call, isCall := an.Unparen(ret.Results[0]).(*ast.CallExpr); isCall && depth < 3 {
+				if h := c.P.NewHelperCallee(g, call); h != nil {
+					collect(h, depth+1)
+					return true
+				}
+			}
+			rets = append(rets, ret)
 			return true
-		}
+		})
+	}
+	collect(f, 0)
+	for _, ret := range rets {
 		res := an.Unparen(ret.Results[0])
 		s := an.Str(res)
 		if s == "false" {
-			return true
+			continue
 		}
 		n++
 		key := "(*Arguments).IsSet/return"
@@ -323,8 +340,7 @@ func c17argExits(c *an.Ctx, f *an.Fn) {
 		} else {
 			c.Bad("C17.nonnil", key, ret.Pos(), nil, "Arguments.IsSet answers %s without testing the argument's value with notNil / isSet: a nil piped or slot value counts as set", s)
 		}
-		return true
-	})
+	}
 	c.Expect("C17.nonnil", "value-dependent answers of Arguments.IsSet", n, 3)
 }
 
@@ -463,8 +479,105 @@ func c17kinds(c *an.Ctx) {
 	sort.Strings(missing)
 	sort.Strings(extra)
 	ok := okShape && defaultTrue && invalidFalse && len(missing) == 0 && len(extra) == 0
+	if !ok {
+		// written another way: decide it by running notNil's paths once for every reflect.Kind
+		if why := c17kindsByEnumeration(c, f); why == "" {
+			ok = true
+		} else {
+			extra = append(extra, "by enumeration: "+why)
+		}
+	}
 	c.Check(ok, "C17.kinds", "notNil", f.Pos(), "notNil: invalid → false; IsNil consulted exactly for Chan, Func, Interface, Map, Ptr, Slice; everything else exists",
 		fmt.Sprintf("notNil does not implement \"non-nil\" for exactly the nil-able kinds (missing %v, unexpected %v, invalid→false %v, default→true %v)", missing, extra, invalidFalse, defaultTrue))
+}
+
+// c17kindsByEnumeration explores notNil once per reflect.Kind (v.Kind() fixed to that kind, v.IsValid() to
+// kind != Invalid) and compares what each path returns with the table: Invalid → false, the nil-able
+// kinds → !v.IsNil(), every other kind → true.  It returns "" when the table is met.
+func c17kindsByEnumeration(c *an.Ctx, f *an.Fn) string {
+	p := c.P
+	info := f.Info()
+	var kindCall, validCall *ast.CallExpr
+	var kindType *types.Named
+	an.InspectOwn(f, func(n ast.Node) bool {
+		if call, ok := n.(*ast.CallExpr); ok {
+			switch an.CalleeName(info, call) {
+			case "(reflect.Value).Kind":
+				if kindCall == nil {
+					kindCall = call
+					kindType, _ = info.Types[call].Type.(*types.Named)
+				}
+			case "(reflect.Value).IsValid":
+				if validCall == nil {
+					validCall = call
+				}
+			}
+		}
+		return true
+	})
+	if kindCall == nil || kindType == nil {
+		return "notNil does not look at v.Kind()"
+	}
+	nilable := map[string]bool{"Chan": true, "Func": true, "Interface": true, "Map": true, "Ptr": true, "Pointer": true, "Slice": true}
+	sc := kindType.Obj().Pkg().Scope()
+	var bad []string
+	nKinds := 0
+	for _, name := range sc.Names() {
+		k, ok := sc.Lookup(name).(*types.Const)
+		if !ok || !types.Identical(k.Type(), kindType) {
+			continue
+		}
+		nKinds++
+		x := p.NewExplorer(f, an.Hooks{})
+		init := an.NewState()
+		if !x.SetEq(kindCall, k.Val().ExactString(), init) {
+			return "v.Kind() cannot be fixed for the exploration"
+		}
+		if validCall != nil {
+			x.Assume(validCall, name != "Invalid", init)
+		}
+		x.Run(init)
+		c.States += x.Visited
+		if x.Undecided != "" {
+			return x.Undecided
+		}
+		n := 0
+		for _, ex := range x.Exits {
+			if ex.Kind != an.ExitReturn || ex.Ret == nil || len(ex.Ret.Results) != 1 {
+				bad = append(bad, name+": does not return")
+				continue
+			}
+			n++
+			res := an.Unparen(ex.Ret.Results[0])
+			got := strings.ReplaceAll(an.Norm(f, res), " ", "")
+			if tv, ok := info.Types[res]; ok && tv.Value != nil {
+				got = tv.Value.ExactString()
+			}
+			want := "true"
+			switch {
+			case name == "Invalid":
+				want = "false"
+			case nilable[name]:
+				want = "!$p0.IsNil()"
+			case name == "UnsafePointer" && got == "!$p0.IsNil()":
+				want = got
+			}
+			if got != want {
+				bad = append(bad, fmt.Sprintf("%s → %s (expected %s)", name, got, want))
+			}
+		}
+		if n == 0 {
+			bad = append(bad, name+": no return reached")
+		}
+	}
+	if nKinds < 20 {
+		return "the kinds of package reflect could not be enumerated"
+	}
+	sort.Strings(bad)
+	if len(bad) > 6 {
+		bad = append(bad[:6], "…")
+	}
+	return strings.Join(bad, "; ")
 }
 
 func c17lookup(c *an.Ctx) {
